@@ -216,7 +216,8 @@ class _G:
                 node["default"] = self.node(d, hashable)
             return node
         if k == "coalesce":
-            return {"k": "coalesce", "members": [self.node(d, hashable) for _ in range(self.draw(st.integers(2, 3)))]}
+            lazy_members = lazy_ok and self.p.get("lazy_in_coalesce")
+            return {"k": "coalesce", "members": [self.node(d, hashable, lazy_ok=lazy_members) for _ in range(self.draw(st.integers(2, 3)))]}
         if k in ("list", "tuple", "iter"):
             items = [self.node(d, hashable) for _ in range(self.draw(st.integers(0, 3)))]
             if hashable and k != "tuple":
